@@ -72,7 +72,8 @@ def gen_script(rng, nops):
                 recs = recs + recs[:1]
             rng.random() < 0.2 and rng.shuffle(recs)
             resp = 1 if rng.random() < 0.93 else 0
-            lines.append("DELIVER 4:3232235777|5353|0|%d|0||%s" % (resp, ";".join(recs)))
+            echo = ("%s,255,0" % recs[0].split(",")[0]) if (recs and rng.random() < 0.15) else ""      # a response may echo a question
+            lines.append("DELIVER 4:3232235777|5353|0|%d|0|%s|%s" % (resp, echo, ";".join(recs)))
             for ttl in (2, 3, 120):
                 for f in (500, 850, 950, 1000):
                     marks.append(now + ttl * f)
